@@ -241,6 +241,7 @@ package gpbft
 //@     before[justification_present_exactly_when_required] ite(msg.Vote.Phase == QUALITY_PHASE || (msg.Vote.Phase == PREPARE_PHASE && msg.Vote.Round == 0) || (msg.Vote.Phase == COMMIT_PHASE && voteForBottom), msg.Justification == nil, res(validateJustification, 1) == nil && argOf(validateJustification, 1, 2) == valueKey && argOf(validateJustification, 1, 3) == msg && argOf(validateJustification, 1, 4) == res(GetCommittee, 1, 0))
 //@   at Add 3
 //@     before[cached_under_the_key_it_is_looked_up_by_and_only_when_accepted] arg(0) == v.cache && arg(1) == msg.Vote.Instance && arg(2) == res(message, 1) && arg(3) == cacheKey && dominatedBy(Verify, 1) && res(Verify, 1) == nil
+//@     before[cached_only_after_the_justification_was_judged_too] ite(msg.Vote.Phase == QUALITY_PHASE || (msg.Vote.Phase == PREPARE_PHASE && msg.Vote.Round == 0) || (msg.Vote.Phase == COMMIT_PHASE && voteForBottom), msg.Justification == nil, called(validateJustification, 1) && res(validateJustification, 1) == nil)
 //@   at return 0
 //@     before[nil_only_from_the_cache_or_the_full_check] arg(0) == nil ==> dominatedBy(isAlreadyValidated, 1) || dominatedBy(Verify, 1)
 
@@ -912,7 +913,7 @@ package gpbft
 // Decoding into a chain object that was used before must not leave its cached key behind: a non-empty decode starts from
 // a zero chain (empty key cache, Once not yet done) and then holds one tipset per decoded element, in order.
 //@ func (*ECChain).UnmarshalCBOR
-//@   property C14
+//@   property C14 C13 C05
 //@   modifies auto
 //@   maypanic
 //@   ensures[a_non_empty_decode_resets_the_key_cache] result == nil && len(c.TipSets) > 0 && c.TipSets != old(c.TipSets) ==> c.keyLazyLoader.done.v == 0
@@ -1291,3 +1292,96 @@ package gpbft
 //@     before[only_a_validated_chain_is_handed_out] res(Validate, 1) == nil && arg(1) == nil && arg(0) == &chain
 //@   at return 1
 //@     before[an_invalid_chain_is_refused] res(Validate, 1) != nil && arg(0) == nil && arg(1) != nil
+
+// ---- helpers of the tallies (C07 / C01 / C02 / C03): looked-up justifications, quorum lookups, signer bit fields ----
+//@ func (*quorumState).HasStrongQuorumFor
+//@   property C01 C02 C07
+//@   inlined
+//@   modifies nothing
+//@   ensures[strong_quorum_means_recorded_with_the_flag_set] result == (has(q.chainSupport, key) && q.chainSupport[key].hasStrongQuorum)
+
+// A stored justification is handed out for a value only if it is of the asked step; for bottom only one whose own vote is
+// bottom; nothing is ever invented.
+//@ func (*quorumState).GetJustificationOf
+//@   property C01 C02 C07
+//@   modifies auto
+//@   maypanic
+//@   at return 1
+//@     before[a_justification_of_bottom_is_one_whose_vote_is_bottom_and_of_the_asked_step] arg(0) == justification && justification.Vote.Phase == phase && (justification.Vote.Value == nil || len(justification.Vote.Value.TipSets) == 0) && key == merkle.ZeroDigest
+//@   at return 2
+//@     before[no_match_for_bottom_means_none] arg(0) == nil
+//@   at return 3
+//@     before[a_justification_of_a_value_is_the_one_stored_under_its_key_and_of_the_asked_step] arg(0) == justification && found && has(q.receivedJustification, key) && justification == q.receivedJustification[key] && justification.Vote.Phase == phase
+//@   at return 4
+//@     before[otherwise_none] arg(0) == nil
+
+//@ func (*convergeState).GetJustificationOf
+//@   property C01 C02 C07
+//@   modifies auto
+//@   maypanic
+//@   at return 1
+//@     before[a_justification_of_bottom_is_one_whose_vote_is_bottom_and_of_the_asked_step] arg(0) == value.Justification && value.Justification.Vote.Phase == phase && (value.Justification.Vote.Value == nil || len(value.Justification.Vote.Value.TipSets) == 0) && key == merkle.ZeroDigest
+//@   at return 3
+//@     before[a_justification_of_a_value_is_the_one_stored_under_its_key_and_of_the_asked_step] arg(0) == value.Justification && found && has(c.values, key) && value == c.values[key] && value.Justification.Vote.Phase == phase
+
+// Only the first justification received for a value is kept.
+//@ func (*quorumState).ReceiveJustification
+//@   property C01 C02 C07
+//@   modifies auto
+//@   maypanic
+//@   at return 0
+//@     before[the_first_justification_of_a_value_is_kept] has(q.receivedJustification, res(Key, 1)) && argOf(Key, 1, 0) == value
+//@          && ite(old(has(q.receivedJustification, res(Key, 1))), q.receivedJustification[res(Key, 1)] == old(q.receivedJustification[res(Key, 1)]), q.receivedJustification[res(Key, 1)] == justification)
+
+// The value with a strong quorum is the chain recorded under a key whose flag is set.
+//@ func (*quorumState).FindStrongQuorumValue
+//@   property C01 C02 C03 C07
+//@   modifies auto
+//@   maypanic
+//@   at loopback 1
+//@     before[only_a_value_whose_flag_is_set_is_reported] (foundQuorum == prev(foundQuorum) && quorumValue == prev(quorumValue)) || (cp.hasStrongQuorum && foundQuorum && quorumValue == q.chainSupport[key].chain)
+//@     before[a_flagged_value_is_never_passed_over] cp.hasStrongQuorum ==> foundQuorum
+
+// The bit field of a quorum has exactly the quorum's signer indices.
+//@ func (QuorumResult).SignersBitfield
+//@   property C03
+//@   modifies auto
+//@   maypanic
+//@   loop 1
+//@     invariant len(signers) == iter
+//@   at loopback 1
+//@     before[every_signer_index_is_copied_in_order] len(signers) == len(prev(signers)) + 1 && (s >= 0 ==> signers[len(signers)-1] == s) && forall(j, 0, len(prev(signers)), signers[j] == prev(signers)[j], trigger(signers[j]))
+//@   at RunsFromSlice 1
+//@     before[the_runs_are_built_from_those_indices] arg(0) == signers && len(signers) == len(q.Signers)
+//@   at NewFromIter 1
+//@     before[the_bit_field_is_built_from_those_runs] arg(0) == res(RunsFromSlice, 1, 0)
+//@   at return 0
+//@     before[that_bit_field_is_returned] arg(0) == res(NewFromIter, 1, 0)
+
+// A CONVERGE value is recorded once per sender, never for bottom or without justification; the first justification of a
+// value is kept and its rank only ever improves.
+//@ func (*convergeState).Receive
+//@   property C01 C02 C07
+//@   modifies auto
+//@   maypanic
+//@   opaque Get, Record, ComputeTicketRank
+//@   at return 1
+//@     before[bottom_is_refused] arg(0) != nil && (value == nil || len(value.TipSets) == 0)
+//@   at return 2
+//@     before[a_missing_justification_is_refused] arg(0) != nil && justification == nil
+//@   at return 3
+//@     before[a_second_message_of_a_sender_changes_nothing] arg(0) == nil && old(has(c.senders, sender)) && forall(ECChainKey(k), has(c.values, k) == old(has(c.values, k)) && c.values[k] == old(c.values[k]), trigger(c.values[k]))
+//@   at return 4
+//@     before[a_new_value_is_recorded_with_its_justification_an_old_one_keeps_it] has(c.values, res(Key, 1)) && argOf(Key, 1, 0) == value && has(c.senders, sender)
+//@          && ite(old(has(c.values, res(Key, 1))), c.values[res(Key, 1)].Justification == old(c.values[res(Key, 1)].Justification) && c.values[res(Key, 1)].Chain == old(c.values[res(Key, 1)].Chain)
+//@                 && (c.values[res(Key, 1)].Rank == old(c.values[res(Key, 1)].Rank) || c.values[res(Key, 1)].Rank < old(c.values[res(Key, 1)].Rank)),
+//@               c.values[res(Key, 1)].Chain == value && c.values[res(Key, 1)].Justification == justification)
+
+// A copy of a power table shares nothing with the original: entries, scaled powers and the lookup map are cloned.
+//@ func (*PowerTable).Copy
+//@   property C08
+//@   modifies auto
+//@   maypanic
+//@   at return 0
+//@     before[entries_scaled_powers_and_lookup_are_clones_of_the_originals] arg(0) == replica && replica.Entries == res(Clone, 1) && argOf(Clone, 1, 0) == p.Entries && replica.ScaledPower == res(Clone, 2) && argOf(Clone, 2, 0) == p.ScaledPower
+//@          && replica.Lookup == res(Clone, 3) && argOf(Clone, 3, 0) == p.Lookup && replica.ScaledTotal == p.ScaledTotal && replica != p
